@@ -46,6 +46,17 @@ def reg_family(name):
     return None
 
 
+WIDTH_SUFFIXES = ("64", "32", "16", "8h", "8l")
+
+
+def split_width_suffix(name):
+    """'&genreg.src.64' -> ('&genreg.src', '64'); only the LAST dot-separated part can be a width suffix"""
+    head, dot, last = str(name).rpartition(".")
+    if dot and last.lower() in WIDTH_SUFFIXES:
+        return head, last.lower()
+    return str(name), None
+
+
 X86_REGS = sorted(
     {r for fam in REG_FAMILIES.values() for t in fam.values() for r in t.values()}
     | {f"r{i}{s}" for i in range(8, 16) for s in ("", "d", "w", "b")}
@@ -162,8 +173,7 @@ class Spec:
     def capture_operand(self, name, C):
         fam = reg_family(name)
         if fam is not None:
-            base, _, suffix = name.partition(".")
-            suffix = suffix.lower() or None
+            base, suffix = split_width_suffix(name)
             key = self.env.get(base)
             if key is None:
                 raise SpecError(f"unbound capture {name}")
@@ -179,6 +189,8 @@ class Spec:
         v = self.env.get(name)
         if v is None:
             raise SpecError(f"unbound capture {name}")
+        if v == "":
+            return rx.EMPTY  # "the first occurrence may bind any NON-EMPTY instruction/operand"
         return self.w.lit(v, C)
 
     # ---------------------------------------------------------------- deref (C06)
